@@ -16,6 +16,7 @@ import TdVerif.Model.C02Tensor
 import TdVerif.Model.C02Td
 import TdVerif.Lemmas.C02Basic
 import TdVerif.Lemmas.C02Coord
+import TdVerif.Lemmas.C02Meta
 
 namespace TdVerif.Props.C02
 open TdVerif.C02
@@ -260,6 +261,73 @@ theorem squeezeAll_leaf_commutes (t : T α) (n : Nat) (hn : n ≤ t.rank) :
   obtain ⟨t', h1, h2⟩ := view_leaf_commutes t n ((t.shape.take n).filter (· ≠ 1)) hn (prod_filter_ne_one _)
   exact ⟨t', h1, Eqv2.trans h2 (reshape_eqv_squeezeAll (asBatch n t))⟩
 
+/-! ## view / reshape / unflatten: sizes are validated by the leaf calls only (known finding C02-view-leafless-unvalidated) -/
+
+/- FULL STATEMENT (false of the code, see `view_batch_eq_torch_counterexample`):
+     theorem view_batch_eq_torch (sh bs : Shape) (names : Names) :
+       resShape bs (viewMeta v (natsToInts sh) bs names) = torchShapeOf (Torch.reshape (natsToInts sh) (proxy bs))
+   The code never compares `prod sh` with the batch numel; only the per-leaf `tensor.view(...)` does
+   (`view_leaf_validates`).  Proved: the statement for consistent sizes. -/
+theorem view_batch_eq_torch_partial (v : Bool) (sh bs : Shape) (names : Names) (hprod : prod sh = prod bs) :
+    resShape bs (viewMeta v (natsToInts sh) bs names) = torchShapeOf (Torch.reshape (natsToInts sh) (proxy bs)) := by
+  rw [viewMeta_shape]
+  simp only [Torch.reshape, proxy, inferSize_ofNats sh (prod bs) hprod, torchShapeOf, T.reshape]
+
+/-- negation witness of the full statement: `TensorDict({}, [2,3]).view(7)` is accepted with batch size [7]; torch rejects.
+Replayed on the implementation by check_C02.py (known finding). -/
+theorem view_batch_eq_torch_counterexample :
+    resShape [2, 3] (viewMeta true (natsToInts [7]) [2, 3] none) = some [7] ∧
+    torchShapeOf (Torch.reshape (natsToInts [7]) (proxy [2, 3])) = none := by
+  refine ⟨viewMeta_shape _ _ _ _, ?_⟩
+  decide
+
+/-- the same for unflatten: `TensorDict({}, [2,3]).unflatten(1, (2,2))` is accepted with batch size [2,2,2] -/
+theorem unflatten_batch_eq_torch_counterexample :
+    resShape [2, 3] (unflattenMeta 1 (natsToInts [2, 2]) [2, 3] none) = some [2, 2, 2] ∧
+    torchShapeOf (Torch.unflatten 1 (natsToInts [2, 2]) (proxy [2, 3])) = none := by
+  refine ⟨by rw [unflattenMeta_shape]; decide, ?_⟩
+  decide
+
+/-- what re-validates the sizes in practice: on a leaf whose trailing (non-batch) part has non-zero numel,
+the torch call the closure makes is accepted exactly when the sizes multiply up to the batch numel -/
+theorem view_leaf_validates (t : T α) (n : Nat) (sh : Shape) (hn : n ≤ t.rank)
+    (hF : prod (t.shape.drop n) ≠ 0) :
+    (torchShapeOf (applyLeaf (.view sh n) t) ≠ none) ↔ prod sh = prod (t.shape.take n) := by
+  have hnum : prod t.shape = prod (t.shape.take n) * prod (t.shape.drop n) := by
+    rw [← prod_append, List.take_append_drop]
+  constructor
+  · intro h
+    simp only [applyLeaf, Torch.reshape] at h
+    by_cases hp : prod (sh ++ t.shape.drop n) = prod t.shape
+    · rw [prod_append, hnum] at hp
+      exact Nat.eq_of_mul_eq_mul_right (Nat.pos_of_ne_zero hF) hp
+    · exfalso
+      apply h
+      have : inferSize (natsToInts (sh ++ t.shape.drop n)) (prod t.shape) = none := by
+        unfold inferSize
+        have h1 := natsToInts_any_neg (sh ++ t.shape.drop n)
+        have h1' : (natsToInts (sh ++ t.shape.drop n)).any (· < -1) = false := by
+          rw [List.any_eq_false]; intro x hx
+          simp only [natsToInts, List.mem_map] at hx
+          obtain ⟨y, _, rfl⟩ := hx
+          simp
+        have h2 : (natsToInts (sh ++ t.shape.drop n)).filter (· ≠ -1) = natsToInts (sh ++ t.shape.drop n) := by
+          apply List.filter_eq_self.2; intro x hx
+          simp only [natsToInts, List.mem_map] at hx
+          obtain ⟨y, _, rfl⟩ := hx
+          simp
+        have h3 : (natsToInts (sh ++ t.shape.drop n)).count (-1) = 0 := by
+          apply List.count_eq_zero.2; intro hx
+          simp only [natsToInts, List.mem_map] at hx
+          obtain ⟨y, _, hy⟩ := hx
+          simp at hy
+        simp only [h1', h2, h3, natsToInts_toNat, hp]
+        simp
+      rw [this]; rfl
+  · intro hp
+    obtain ⟨t', h1, _⟩ := view_leaf_commutes t n sh hn hp
+    rw [h1]; simp [torchShapeOf]
+
 /-! ## the batch size computed by the code is the shape torch gives; the code rejects iff torch rejects -/
 
 theorem unsqueeze_batch_eq_torch (d : Int) (bs : Shape) (names : Names) :
@@ -313,21 +381,110 @@ theorem squeezeAll_batch_eq_torch (bs : Shape) (names : Names) :
   · rw [if_neg h]; simp only [resShape]
 
 
+/-- permute: the batch size the code computes is the shape torch gives, and the code rejects exactly the dims torch rejects
+(wrong length, out-of-range, repeated), for every batch shape incl. rank 0 and every spelling of negative dims -/
+theorem permute_batch_eq_torch (dims : List Int) (bs : Shape) (names : Names) :
+    resShape bs (permuteMeta dims bs names) = torchShapeOf (Torch.permute dims (proxy bs)) := by
+  by_cases hn : bs.length = 0
+  · -- rank 0
+    have hb : bs = [] := List.length_eq_zero_iff.1 hn
+    subst hb
+    cases dims with
+    | nil => simp [permuteMeta, Torch.permute, proxy, T.rank, wrapPerm, resShape, torchShapeOf, T.permute, Except.map]
+    | cons d ds =>
+      have h1 : resShape [] (permuteMeta (d :: ds) [] names) = none := by
+        unfold permuteMeta resShape
+        simp only [List.length_nil, List.length_map, List.length_cons]
+        split <;> simp_all
+      rw [h1]
+      simp [Torch.permute, proxy, T.rank, torchShapeOf]
+  · -- rank ≥ 1
+    have hlt : ∀ d, (wrapDim bs.length d).isSome = true → wrapVal bs.length d < bs.length := wrapVal_lt hn
+    by_cases hlen : dims.length = bs.length
+    · by_cases hall : ∀ d ∈ dims, (wrapDim bs.length d).isSome = true
+      · -- all dims in range: p is the list of normalised dims
+        have hp : (dims.map (fun d => if d ≥ 0 then d else (bs.length : Int) + d)).map Int.toNat = dims.map (wrapVal bs.length) := by
+          rw [List.map_map]; apply List.map_congr_left; intro d hd
+          simp only [Function.comp_apply]; exact meta_norm_val hn d (hall d hd)
+        have hany : (dims.map (fun d => if d ≥ 0 then d else (bs.length : Int) + d)).any (fun d => d < 0 ∨ d ≥ (bs.length : Int)) = false := by
+          rw [List.any_eq_false]; intro x hx
+          obtain ⟨d, hd, rfl⟩ := List.mem_map.1 hx
+          have := (meta_norm_inrange hn d).2 (hall d hd)
+          simpa using this
+        have hplen : (dims.map (wrapVal bs.length)).length = bs.length := by simp [hlen]
+        by_cases hnd : (dims.map (wrapVal bs.length)).Nodup
+        · have hperm : (dims.map (wrapVal bs.length)).Perm (List.range bs.length) :=
+            perm_range_of_nodup_lt _ _ hnd (by
+              intro x hx; obtain ⟨d, hd, rfl⟩ := List.mem_map.1 hx; exact hlt d (hall d hd)) hplen
+          have hsort := mergeSort_of_perm_range _ _ hperm
+          have ht : wrapPerm bs.length dims [] = .ok (dims.map (wrapVal bs.length)) :=
+            (wrapPerm_ok_iff bs.length dims [] _).2 ⟨hall, hnd, by simp, by simp⟩
+          have hT : torchShapeOf (Torch.permute dims (proxy bs)) = some ((dims.map (wrapVal bs.length)).map (fun i => bs.getD i 0)) := by
+            simp [Torch.permute, proxy, T.rank, hlen, ht, Except.map, torchShapeOf, T.permute]
+          rw [hT]
+          unfold permuteMeta
+          simp only [hany, hp, List.length_map, hlen, hplen, hsort, Bool.false_eq_true, if_false, ne_eq, not_true_eq_false, hn, false_and]
+          by_cases hid : dims.map (wrapVal bs.length) = List.range bs.length
+          · simp only [hid, if_true, resShape, range_map_getD']
+          · simp only [hid, if_false, resShape, List.drop_length, List.append_nil]
+        · -- a repeated dim: both reject
+          have ht : torchShapeOf (Torch.permute dims (proxy bs)) = none := by
+            simp only [Torch.permute, proxy, T.rank, hlen, ne_eq, not_true_eq_false, if_false]
+            rcases hw : wrapPerm bs.length dims [] with e | r
+            · simp [Except.map, torchShapeOf]
+            · exact absurd ((wrapPerm_ok_iff bs.length dims [] r).1 hw).2.1 hnd
+          rw [ht]
+          have hsort : (dims.map (wrapVal bs.length)).mergeSort ≠ List.range bs.length := by
+            intro h
+            have := perm_range_of_mergeSort (dims.map (wrapVal bs.length)) (by rw [hplen]; exact h)
+            rw [hplen] at this
+            exact hnd (this.nodup_iff.2 List.nodup_range)
+          unfold permuteMeta
+          simp only [hany, hp, List.length_map, hlen, hplen, hsort, Bool.false_eq_true, if_false, ne_eq, not_true_eq_false,
+            not_false_eq_true, if_true, resShape]
+      · -- some dim out of range: both reject
+        have ht : torchShapeOf (Torch.permute dims (proxy bs)) = none := by
+          simp only [Torch.permute, proxy, T.rank, hlen, ne_eq, not_true_eq_false, if_false]
+          rcases hw : wrapPerm bs.length dims [] with e | r
+          · simp [Except.map, torchShapeOf]
+          · exact absurd ((wrapPerm_ok_iff bs.length dims [] r).1 hw).1 hall
+        rw [ht]
+        have hany : (dims.map (fun d => if d ≥ 0 then d else (bs.length : Int) + d)).any (fun d => d < 0 ∨ d ≥ (bs.length : Int)) = true := by
+          rw [List.any_eq_true]
+          have : ∃ d ∈ dims, ¬ (wrapDim bs.length d).isSome = true := by
+            by_cases h : ∃ d ∈ dims, ¬ (wrapDim bs.length d).isSome = true
+            · exact h
+            · exact absurd (fun d hd => Classical.byContradiction fun hc => h ⟨d, hd, hc⟩) hall
+          obtain ⟨d, hd, hbad⟩ := this
+          refine ⟨_, List.mem_map.2 ⟨d, hd, rfl⟩, ?_⟩
+          have hmn := meta_norm_inrange hn d
+          have : ((if d ≥ 0 then d else (bs.length : Int) + d) < 0 ∨ (if d ≥ 0 then d else (bs.length : Int) + d) ≥ bs.length) := by
+            by_cases hc : ((if d ≥ 0 then d else (bs.length : Int) + d) < 0 ∨ (if d ≥ 0 then d else (bs.length : Int) + d) ≥ bs.length)
+            · exact hc
+            · exact absurd (hmn.1 hc) hbad
+          simpa using this
+        unfold permuteMeta
+        simp only [hany, if_true, resShape]
+    · -- wrong number of dims: both reject
+      have ht : torchShapeOf (Torch.permute dims (proxy bs)) = none := by
+        simp [Torch.permute, proxy, T.rank, hlen, torchShapeOf]
+      rw [ht]
+      unfold permuteMeta resShape
+      simp only [List.length_map, hlen]
+      split <;> simp_all
+
+
 /-! ## names travel with their dims -/
 
 /-! names travel with their dims: on accepted inputs the list of names undergoes exactly the list
 operation the list of sizes undergoes (same index), new dims are unnamed -/
 
 theorem unsqueeze_names_travel (d : Int) (bs : Shape) (l : List (Option String)) (i : Nat)
-    (hl : l.length = bs.length) (hne : bs ≠ []) (hd : normDim (bs.length + 1) d = some i) :
+    (hd : normDim (bs.length + 1) d = some i) :
     unsqueezeMeta d bs (some l) = .ok (some (bs.insertIdx i 1, some (l.insertIdx i none), .unsqueeze i)) := by
-  have hl0 : l.isEmpty = false := by
-    cases l with
-    | nil => simp at hl; exact absurd (List.length_eq_zero_iff.1 hl.symm) hne
-    | cons _ _ => rfl
   unfold unsqueezeMeta
   unfold normDim at hd
-  simp only [Option.map_some, hl0]
+  simp only [Option.map_some]
   grind
 
 theorem squeeze_names_travel (d : Int) (bs : Shape) (l : List (Option String)) (i : Nat)
